@@ -131,12 +131,17 @@ IrtTwoAssns == { [Base EXCEPT !.assns = <<Assn(FALSE, "eq", <<Conf("eq", c1, "in
 ArtC04 == { [Base EXCEPT !.entry = "artifact", !.art.irt = a, !.art.signed = sg, !.signed = ~sg, !.rIRT = r, !.assns[1].confs[1].irt = c] :
               a \in {"match", "old", "other", "absent"}, sg \in BOOLEAN, r \in {"id1", "other", "absent"}, c \in {"id1", "other", "absent"} }
 
+\* the layout in which nothing at the Response level is examined for addressing: Response unsigned
+\* (assertion signed) and no Destination attribute - its InResponseTo must be checked all the same
+NoDest(x) == [Unsigned(x) EXCEPT !.dest = "absent"]
 InitC04q == \/ /\ cfg \in CfgsC04main /\ in \in IrtOneConf \cup IrtNoConfs
             \/ /\ cfg \in { c \in CfgsC04main : c.outstanding \in SomeOut }
                /\ in \in IrtTwoConfs \cup IrtTwoAssns \cup ArtC04
                         \cup { [x EXCEPT !.entry = "post"] : x \in IrtOneConf }
                         \cup { Unsigned(x) : x \in IrtOneConf }
+                        \cup { NoDest(x) : x \in IrtOneConf }
 InitC04t == \/ /\ cfg \in CfgsC04 /\ in \in IrtOneConf \cup IrtNoConfs \cup { Unsigned(x) : x \in IrtOneConf \cup IrtNoConfs }
+                                            \cup { NoDest(x) : x \in IrtOneConf \cup IrtNoConfs }
             \/ /\ cfg \in CfgsC04main
                /\ in \in IrtTwoConfs \cup IrtTwoAssns \cup ArtC04 \cup { [x EXCEPT !.entry = "post"] : x \in IrtOneConf }
 
